@@ -33,6 +33,7 @@ type Knobs struct {
 	Budget     int  // node budget of one program (0 = default)
 	WideOps    bool // n-ary operators with up to 24 operands now and then
 	CountOp    bool // a call-counting (non-idempotent) user operator is available
+	RawConsts  bool // constants of non-canonical Go types (plain int) in ConstantMap
 	OddInts    bool // integer literals spelled with leading zeros or a plus sign
 }
 
@@ -132,6 +133,9 @@ func NewGen(r *Rng, k Knobs) *Gen {
 		}
 		name := constNames[cn[i]]
 		v := g.Value(ty)
+		if k.RawConsts && ty == TInt && r.P(0.5) {
+			v = V{T: "int", I: int64(int(v.I % 1000))} // a plain Go int in the constant table
+		}
 		if (ty == TIntList || ty == TStrList) && len(v.IL)+len(v.SL) == 0 {
 			// an empty list constant would be printed by Dump as "()" whatever
 			// its element type; keep constants unambiguous
@@ -179,6 +183,14 @@ func NewGen(r *Rng, k Knobs) *Gen {
 			sp.Stateless = true
 		}
 		sp.Mutates = r.P(0.2)
+		if ret == TInt && r.P(0.12) {
+			sp.Ret = TRawInt // returns a Go int, not an int64
+			if !k.RawConsts {
+				// folded, its result would be a Go int constant, which Dump prints
+				// like an int64: only worlds that never read Dump back may fold it
+				sp.Stateless = false
+			}
+		}
 		g.C.Ops = append(g.C.Ops, sp)
 		g.ob[ret] = append(g.ob[ret], len(g.C.Ops)-1)
 	}
